@@ -5,6 +5,7 @@ import (
 	"fmt"
 	"os"
 	"path/filepath"
+	"strings"
 	"sync"
 	"time"
 
@@ -85,4 +86,29 @@ func (st *SigStats) summary() string {
 		s += fmt.Sprintf("\n  divergence %-22s %d", k, v)
 	}
 	return s
+}
+
+// replaySig re-runs one signature case on the real code.
+func replaySig(def *propDef, b json.RawMessage) int {
+	var d run.SigDiv
+	if json.Unmarshal(b, &d) != nil {
+		return 2
+	}
+	i := strings.Index(d.Detail, " sig=")
+	j := strings.Index(d.Detail, " opts=")
+	if i < 0 || j < 0 {
+		return 2
+	}
+	// the specification's verdicts are not stored with the finding: enumerate again and pick the case
+	st, err := sigStage(10*time.Minute, 1000000)
+	if err != nil || st == nil {
+		return 2
+	}
+	for _, ex := range st.Examples {
+		if ex.Kind == d.Kind && strings.HasSuffix(ex.Detail, d.Detail[i:]) {
+			fmt.Println("reproduced:", ex.Kind, ex.Detail)
+			return 1
+		}
+	}
+	return 0
 }
